@@ -109,78 +109,85 @@ Fixpoint read_v (inp : list Z) (n : Z) : list Z * list Z * bool :=
 
 Definition sub_limit (limit d : Z) : Z := if limit =? -1 then -1 else limit - d.
 
-(* One call of pd = one iteration of for(;;) (one TLV at this level) followed
-   by the rest of the loop.  fsize is the caller's *frame_size, pdc the local
-   variable of that name. *)
-Fixpoint pd (fuel : nat) (level : nat) (limit esize : Z) (eoc : bool) (fsize : Z) (pdc : pdcode)
-            (inp : list Z) (off : Z) : pdres :=
-  match fuel with
-  | O => POutOfFuel
-  | S f =>
-    match read_tl limit eoc [] inp off with
-    | RFinished => PDone [] PD_FINISHED fsize inp off
-    | REof => PDone [] PD_EOF fsize [] off
-    | RFail d => PFail [] d
-    | ROk tagbuf tag len tlen llen inp1 off1 =>
-        let tblen := zlen tagbuf in
-        let tl := Z.of_nat tlen + Z.of_nat llen in
-        let constr := is_constr tagbuf in
-        let is_eoc := eoc && (nth 0 tagbuf 0 =? 0) && (nth 1 tagbuf 0 =? 0) in
-        let off0 := off1 - tblen in
-        (* the opening attributes are already printed when the next two tests run *)
-        let cut := if is_eoc then [] else [LTrunc level constr off0 tag tblen len None] in
-        let limit1 := sub_limit limit tl in
-        if negb (limit =? -1) && (limit1 <? 0) then PAbort cut                 (* assert(limit >= 0) *)
-        else if negb (limit =? -1) && (limit1 <? len) then PFail cut (DExceeds len limit1)
-        else
-          let fsize1 := fsize + tl in
-          let esize1 := esize + tl in
-          if is_eoc then
-            PDone [LCloseI (Nat.pred level) (off1 - 2) esize1] PD_FINISHED fsize1 inp1 off1
-          else if constr then
-            let opn := LOpen level off0 tag tblen len in
-            match pd f (S level) (if len =? -1 then limit1 else len) tl (len =? -1) 0 PD_FINISHED inp1 off1 with
-            | POutOfFuel => POutOfFuel
-            | PFail o d => PFail (opn :: o) d
-            | PAbort o => PAbort (opn :: o)
-            | PDone o c dec inp2 off2 =>
-                if negb (limit1 =? -1) && (limit1 <? dec) then PAbort (opn :: o)    (* assert(limit >= dec) *)
-                else
-                  let limit2 := sub_limit limit1 dec in
-                  let fsize2 := fsize1 + dec in
-                  let esize2 := esize1 + dec in
-                  if len =? -1 then
-                    match c with
-                    | PD_FINISHED =>
-                        if (limit2 <? 0) && negb eoc then PDone (opn :: o) c fsize2 inp2 off2
-                        else emit (opn :: o) (pd f level limit2 esize2 eoc fsize2 c inp2 off2)
-                    | PD_EOF => emit (opn :: o) (pd f level limit2 esize2 eoc fsize2 c inp2 off2)
-                    end
-                  else
-                    let out := opn :: o ++ [LClose level off2 tag (tl + dec)] in
-                    match level with
-                    | O => if (limit2 =? -1) && negb eoc then PDone out c fsize2 inp2 off2
-                           else emit out (pd f level limit2 esize2 eoc fsize2 c inp2 off2)
-                    | S _ => emit out (pd f level limit2 esize2 eoc fsize2 c inp2 off2)
-                    end
-            end
-          else if len <? 0 then PAbort cut                                     (* assert(tlv_len >= 0) *)
-          else
-            match read_v inp1 len with
-            | (bs, _, false) => PFail [LTrunc level false off0 tag tblen len (Some bs)] DEofV
-            | (bs, inp2, true) =>
-                let off2 := off1 + len in
-                let out := [LPrim level off0 tag tblen len bs] in
-                let limit2 := sub_limit limit1 len in
-                let fsize2 := fsize1 + len in
-                let esize2 := esize1 + len in
-                match level with
-                | O => if (limit2 =? -1) && negb eoc then PDone out pdc fsize2 inp2 off2
-                       else emit out (pd f level limit2 esize2 eoc fsize2 pdc inp2 off2)
-                | S _ => emit out (pd f level limit2 esize2 eoc fsize2 pdc inp2 off2)
-                end
-            end
+(* process_deeper is written with open recursion: [self] stands for "the rest
+   of the for(;;) loop at this level" and, applied to level+1, for the recursive
+   call.  Arguments: level limit effective_size expect_eoc *frame_size pdc,
+   then the input stream (remaining octets, bytesRead). *)
+Definition loop_t : Type := nat -> Z -> Z -> bool -> Z -> pdcode -> list Z -> Z -> pdres.
+
+(* the tail of one iteration: the early return after an indefinite-length
+   child / "Report success for a single top level TLV", else loop again *)
+Definition pd_next (self : loop_t) (indef : bool) (level : nat) (limit2 esize2 : Z) (eoc : bool)
+           (fsize2 : Z) (c : pdcode) (inp2 : list Z) (off2 : Z) : pdres :=
+  if indef then
+    match c with
+    | PD_FINISHED =>
+        if (limit2 <? 0) && negb eoc then PDone [] c fsize2 inp2 off2
+        else self level limit2 esize2 eoc fsize2 c inp2 off2
+    | PD_EOF => self level limit2 esize2 eoc fsize2 c inp2 off2
     end
+  else
+    match level with
+    | O => if (limit2 =? -1) && negb eoc then PDone [] c fsize2 inp2 off2
+           else self level limit2 esize2 eoc fsize2 c inp2 off2
+    | S _ => self level limit2 esize2 eoc fsize2 c inp2 off2
+    end.
+
+(* one iteration after a complete TL header has been read into tagbuf;
+   tl = t_len + l_len (= tblen) *)
+Definition pd_tlv (self : loop_t) (level : nat) (limit esize : Z) (eoc : bool) (fsize : Z) (pdc : pdcode)
+           (tagbuf : list Z) (tag len tl : Z) (inp1 : list Z) (off1 : Z) : pdres :=
+  let tblen := zlen tagbuf in
+  let constr := is_constr tagbuf in
+  let is_eoc := eoc && (nth 0 tagbuf 0 =? 0) && (nth 1 tagbuf 0 =? 0) in
+  let off0 := off1 - tblen in
+  (* the opening attributes are already printed when the next two tests run *)
+  let cut := if is_eoc then [] else [LTrunc level constr off0 tag tblen len None] in
+  let limit1 := sub_limit limit tl in
+  if negb (limit =? -1) && (limit1 <? 0) then PAbort cut                       (* assert(limit >= 0) *)
+  else if negb (limit =? -1) && (limit1 <? len) then PFail cut (DExceeds len limit1)
+  else
+    let fsize1 := fsize + tl in
+    let esize1 := esize + tl in
+    if is_eoc then
+      PDone [LCloseI (Nat.pred level) (off1 - 2) esize1] PD_FINISHED fsize1 inp1 off1
+    else if constr then
+      let opn := LOpen level off0 tag tblen len in
+      match self (S level) (if len =? -1 then limit1 else len) tl (len =? -1) 0 PD_FINISHED inp1 off1 with
+      | POutOfFuel => POutOfFuel
+      | PFail o d => PFail (opn :: o) d
+      | PAbort o => PAbort (opn :: o)
+      | PDone o c dec inp2 off2 =>
+          if negb (limit1 =? -1) && (limit1 <? dec) then PAbort (opn :: o)      (* assert(limit >= dec) *)
+          else
+            let out := if len =? -1 then opn :: o else opn :: o ++ [LClose level off2 tag (tl + dec)] in
+            emit out (pd_next self (len =? -1) level (sub_limit limit1 dec) (esize1 + dec) eoc (fsize1 + dec) c inp2 off2)
+      end
+    else if len <? 0 then PAbort cut                                           (* assert(tlv_len >= 0) *)
+    else
+      match read_v inp1 len with
+      | (bs, _, false) => PFail [LTrunc level false off0 tag tblen len (Some bs)] DEofV
+      | (bs, inp2, true) =>
+          emit [LPrim level off0 tag tblen len bs]
+               (pd_next self false level (sub_limit limit1 len) (esize1 + len) eoc (fsize1 + len) pdc inp2 (off1 + len))
+      end.
+
+Definition pd_body (self : loop_t) : loop_t :=
+  fun level limit esize eoc fsize pdc inp off =>
+  match read_tl limit eoc [] inp off with
+  | RFinished => PDone [] PD_FINISHED fsize inp off
+  | REof => PDone [] PD_EOF fsize [] off
+  | RFail d => PFail [] d
+  | ROk tagbuf tag len tlen llen inp1 off1 =>
+      pd_tlv self level limit esize eoc fsize pdc tagbuf tag len (Z.of_nat tlen + Z.of_nat llen) inp1 off1
+  end.
+
+(* fuel = depth of the call tree (every call consumes a TL header before it
+   calls again, so length input + 1 suffices: XxberProofs.pd_fuel) *)
+Fixpoint pd (fuel : nat) : loop_t :=
+  match fuel with
+  | O => fun _ _ _ _ _ _ _ _ => POutOfFuel
+  | S f => pd_body (pd f)
   end.
 
 (* ---------------- unber_stream / main ---------------- *)
